@@ -95,6 +95,14 @@ func run(rc *kernel.RunCtx) {
 	rc.Data = d
 
 	nTasks := tp.Range(2, 5)
+	// Some runs are crowds: many callers with an operation or two each, so
+	// that more calls are in progress at once than the usual handful (waiter
+	// counts, per-call slots and the like are then exceeded).
+	crowd := tp.Bool(1, 64)
+	if crowd {
+		nTasks = tp.Range(6, 24)
+		rc.Stats.Probe("crowd-of-callers")
+	}
 	d.nKeys = tp.Range(2, 4)
 	d.cfgKind = tp.Choose(numCfg)
 	for i := 0; i < d.nKeys; i++ {
@@ -111,6 +119,9 @@ func run(rc *kernel.RunCtx) {
 	ops := make([][]op, nTasks)
 	for ti := range ops {
 		n := tp.Range(2, 8)
+		if crowd {
+			n = 1 + n%2
+		}
 		for j := 0; j < n; j++ {
 			o := op{key: tp.Choose(d.nKeys)}
 			switch c := tp.Choose(20); {
